@@ -134,7 +134,16 @@ class Walker:
         return [t["otherwise"]]
 
     def result_on_path(self, path):
-        """Origin terms of the last write to _0 along the path."""
+        """Origin terms of the last write to _0 along the path, with provenance taken along that path only
+        (a local assigned differently on different paths contributes only the assignment on this one)."""
+        po = Origins(self.b, self.o.facts, only_blocks=set(path))
+        saved, self.o = self.o, po
+        try:
+            return self._result_on_path(path)
+        finally:
+            self.o = saved
+
+    def _result_on_path(self, path):
         for blk in reversed(path):
             bl = self.b.blocks[blk]
             t = bl["term"]
